@@ -2516,6 +2516,8 @@ class sptensor:
                         newsz.append(max(key_n) + 1)
                     else:
                         newsz.append(max([self.shape[n], max(key_n) + 1]))
+                    # An index list takes up a mode of the right-hand side too
+                    m = m + 1
             self.shape = tuple(newsz)
 
             # Expand subs array if there are new modes, i.e., if the order
